@@ -16,15 +16,15 @@ _NONE_FIELD = "none"
 
 def is_primitive(item):
     """
-    Determines if the given item is a primitive value (either an int, float,
-    str, bool, or None).
+    Determines if the given item is a primitive value (a number, str, bytes,
+    bool, Ellipsis or None: whatever a literal can hold).
 
     Args:
         item (any): Any value
     Returns:
         bool: Whether the item is a primitive value.
     """
-    return isinstance(item, (int, float, str, bool)) or item is None
+    return isinstance(item, (int, float, complex, str, bytes, bool, type(Ellipsis))) or item is None
 
 
 def _name_regex(name_id):
